@@ -57,14 +57,42 @@ Proof.
   eapply kids_ok_impl; [|exact K]. cbn beta. intros idx st k (KS & BD) KN HE. cbn in BD.
   destruct (kid_std_fds _ _ _ _ _ _ _ _ _ _ _ KS HE) as (A & B & C).
   assert (LE : idx <= length (p_stages pl) - 1) by lia.
-  assert (H : (idx =? length (p_stages pl) - 1) && p_capture pl = false \/ forallb is_file_redir (s_redirs st) = true).
+  assert (H : (idx =? length (p_stages pl) - 1) && p_capture pl = false \/ forallb is_file_redir (s_redirs st) = true \/ v_capfirst v = true).
   { unfold Known_C04_child, known_capdup in KN.
-    destruct ((idx =? length (p_stages pl) - 1) && p_capture pl) eqn:LC; [right|left; reflexivity].
+    destruct ((idx =? length (p_stages pl) - 1) && p_capture pl) eqn:LC; [right; left|left; reflexivity].
     try rewrite LC in KN. cbn [andb] in KN. apply no_dups_all_file. exact KN. }
-  rewrite (final_sinks_posix (p_capture pl) (length (p_stages pl) - 1) idx (s_redirs st) o0 e0 LE H) in B, C.
+  rewrite (final_sinks_posix v (p_capture pl) (length (p_stages pl) - 1) idx (s_redirs st) o0 e0 LE H) in B, C.
   replace (S (length (p_stages pl) - 1)) with (length (p_stages pl)) in B, C by lia.
   cbv zeta. auto.
 Qed.
+
+(* PROPOSED notes/C04-fix-4.patch (capture pipes before the redirections): no stage class is left -- `$(prog 2>&1)`,
+   `$(prog 1>&2)`, `$(prog > f 2>&1)` follow the POSIX fold over the capture pipes like any other descriptor *)
+Definition v_fix4 := mkv true true true true true true true.
+Theorem C04_sinks_fix4 : forall fail_at openable pl sh i0 o0 e0,
+  std_ok (tab sh) i0 o0 e0 -> is_single_builtin pl = false ->
+  let r := run_pipeline v_fix4 fail_at openable pl sh in
+  res_error r = false ->
+  kids_ok (fun idx st k => sinks_ok i0 o0 e0 (length (p_stages pl)) (p_capture pl) idx st k)
+          0 (p_stages pl) (res_kids r).
+Proof.
+  intros fail_at openable pl sh i0 o0 e0 SO NB r NE.
+  pose proof (kids_ok_bound _ _ _ _ (pipeline_kids v_fix4 openable fail_at pl sh i0 o0 e0 SO NB NE)) as K.
+  eapply kids_ok_impl; [|exact K]. cbn beta. intros idx st k (KS & BD) HE. cbn in BD.
+  destruct (kid_std_fds _ _ _ _ _ _ _ _ _ _ _ KS HE) as (A & B & C).
+  assert (LE : idx <= length (p_stages pl) - 1) by lia.
+  rewrite (final_sinks_posix v_fix4 (p_capture pl) (length (p_stages pl) - 1) idx (s_redirs st) o0 e0 LE
+             (or_intror (or_intror eq_refl))) in B, C.
+  replace (S (length (p_stages pl) - 1)) with (length (p_stages pl)) in B, C by lia.
+  cbv zeta. auto.
+Qed.
+Example C04_fix4_witnesses :
+  let ks rs := match res_kids (run_pipeline v_fix4 nf yes (mkplan [mks FNone rs KExt []] true) sh0) with
+               | [k] => map (obj_at (tab (k_proc k))) [1; 2; 3; 4; 5; 6] | _ => [] end in
+  ks [mkr F2 false TAmp1] = [Some (OPipeW PCapOut); Some (OPipeW PCapOut); None; None; None; None] /\
+  ks [mkr F1 false (TFile 5); mkr F2 false TAmp1] = [Some (OFile 5 MTrunc); Some (OFile 5 MTrunc); None; None; None; None] /\
+  ks [mkr F1 false TAmp2] = [Some (OPipeW PCapErr); Some (OPipeW PCapErr); None; None; None; None].
+Proof. vm_compute. repeat split; reflexivity. Qed.
 
 (* a source or target that cannot be opened: the stage is not exec'd and exits with status 1;
    otherwise it is exec'd (external), and exactly the files a POSIX shell opens are opened *)
@@ -156,6 +184,7 @@ Print Assumptions C04_parse_from.
 Print Assumptions C04_parse_from_attached.
 Print Assumptions C04_sinks.
 Print Assumptions C04_unopenable.
+Print Assumptions C04_sinks_fix4.
 Print Assumptions C04_builtin_sinks.
 Print Assumptions C04_shell_unaffected.
 Print Assumptions C04_refuted.
